@@ -633,7 +633,7 @@ pub fn execute(s: &Scenario) -> Result<CaseReport, Failure> {
   let mut rx: ManuallyDrop<Vec<Box<dyn Rx>>> = ManuallyDrop::new(Vec::new());
   let pfail = |stage: &str, p: Box<dyn std::any::Any + Send>| {
     let msg = crate::panic_msg(&p);
-    Failure::new(if stage == "teardown" { "C09" } else { "C07" }, format!("E1/spmc_broadcast/panic_{}/{}", stage, crate::panic_site(&msg)), format!("panic inside the channel during {stage}: {msg}"))
+    Failure::new(if stage == "teardown" { crate::panic_prop("C09", &["C04", "C07", "C09"]) } else { crate::panic_prop("C07", &["C04", "C07", "C09"]) }, format!("E1/spmc_broadcast/panic_{}/{}", stage, crate::panic_site(&msg)), format!("panic inside the channel during {stage}: {msg}"))
   };
   let r = catch_unwind(AssertUnwindSafe(|| {
     let (t, r) = make(Flavour::Broadcast, s.async_start, s.cap);
